@@ -93,6 +93,8 @@ pub fn lookup_blocking(
             let leaf = Arc::new(LeafNode {
                 inner: leaf_store.query(leaf_pn),
             });
+            #[cfg(nomt_verif)]
+            crate::beatree::leaf_cache_verif::observe_insert(leaf_cache, leaf_pn, &leaf);
             leaf_cache.insert(leaf_pn, leaf.clone());
             leaf
         }
